@@ -330,10 +330,17 @@ func comparePrepare(b *Build, src string, m *prepModel) []string {
 	return problems
 }
 
+// allAV: the three pairs main.go selects plus the cross pairs reachable through
+// explicit --abi / --version flags.
+var allAV = []struct {
+	ABI int
+	Ver string
+}{{3, "3.0"}, {4, "4.0"}, {4, "4.1"}, {3, "4.0"}, {3, "4.1"}, {4, "3.0"}}
+
 func c04Configs() []Config {
 	var res []Config
 	for _, d := range allDists {
-		for _, av := range primaryAV {
+		for _, av := range allAV {
 			for _, f := range []bool{false, true} {
 				res = append(res, Config{Dist: d, ABI: av.ABI, Version: av.Ver, Full: f})
 			}
@@ -346,7 +353,7 @@ func TestC04_Shipped(t *testing.T) {
 	if err := haveBins(); err != nil {
 		t.Fatalf("INFRA: %v", err)
 	}
-	ev := NewEv(t, "C04", "shipped", "the prepare stage of the real main package (binary built with -tags verif, VERIF_PREPARE_ONLY) on the shipped tree for all 30 (distribution, ABI, version, full) configurations - the mode is irrelevant before the builders - enumerated completely in both tiers, each also started over a polluted build directory; oracle: independent model of the documented prepare steps (ignore lists, flattening, configure deltas, flags manifests, overwrite renames and disable/ links, full-system-policy installs and edits, systemd drop-ins): nothing expected is missing, nothing unexpected is present, no two sources share an output name, contents equal the source except for manifest flags and the two documented --full edits. Non-trivial: a configuration in which a by-name ignore, a path ignore, a manifest rewrite and (ABI 4) an overwrite applied; distinct by configuration + output file")
+	ev := NewEv(t, "C04", "shipped", "the prepare stage of the real main package (binary built with -tags verif, VERIF_PREPARE_ONLY) on the shipped tree for all 60 (distribution, ABI, version, full) configurations - the three ABI/version pairs main.go selects and the three cross pairs reachable through explicit flags; the mode is irrelevant before the builders - enumerated completely in both tiers, each also started over a polluted build directory; oracle: independent model of the documented prepare steps (ignore lists, flattening, configure deltas, flags manifests, overwrite renames and disable/ links, full-system-policy installs and edits, systemd drop-ins): nothing expected is missing, nothing unexpected is present, no two sources share an output name, contents equal the source except for manifest flags and the two documented --full edits. Non-trivial: a configuration in which a by-name ignore, a path ignore, a manifest rewrite and (ABI 4) an overwrite applied; distinct by configuration + output file")
 	ev.Exhaustive = true
 	cfgs := c04Configs()
 	var mu sync.Mutex
